@@ -248,10 +248,19 @@ def run(ctx: Ctx) -> None:
                     break
         # plain fx symbolic tracing: forward values
         gm = None
+        # modules whose forward is plain tensor code trace on the unchanged tree; the rest (einops, len(), data-dependent
+        # asserts, non-numeric interpolation of a traced size) do not and are only counted
+        hard = (uu.Conv1d, uu.RMSNorm, uu.MHSA, uu.TransformerLayer, uu.Embedding)
+        fx_expected = not any(isinstance(sm, hard) or (isinstance(sm, uu.Linear) and not isinstance(sm, uu.LinearReadout)
+                                                       and getattr(sm, "constraint", None) not in (None, "to_output_scale"))
+                              for sm in m.modules())
         try:
             gm = torch.fx.symbolic_trace(copy.deepcopy(m))
-        except Exception:
+        except Exception as e:  # noqa: BLE001
             ctx.bump("fx-untraceable/" + name)
+            if fx_expected:
+                ctx.violation(f"C20:{name}:fx-trace-fails", "plain fx.symbolic_trace no longer traces this module "
+                              f"({type(e).__name__}: {str(e)[:80]})", key)
         if gm is not None:
             ctx.bump("fx-traced/" + name)
             with ctx.guard(f"C20:{name}:fx-run", key):
@@ -260,6 +269,34 @@ def run(ctx: Ctx) -> None:
                 if not close(yf.detach(), want[0], dt):
                     ctx.violation(f"C20:{name}:fx-forward", "fx.symbolic_trace GraphModule forward differs from eager", key,
                                   float((yf.detach().double() - want[0].double()).abs().max()))
+
+        # the library's leaf-wrapping tracer (analyse_module): unit-scaled functions stay leaf calls, so the traced graph
+        # reproduces forward values AND gradients (backward-only factors included)
+        from unit_scaling.utils import _DeepTracer
+        dg = None
+        try:
+            dg = torch.fx.GraphModule(copy.deepcopy(m), _DeepTracer().trace(copy.deepcopy(m)))
+        except Exception as e:  # noqa: BLE001
+            ctx.violation(f"C20:{name}:leaf-tracer-fails", f"the library's leaf-wrapping tracer cannot trace this module "
+                          f"({type(e).__name__}: {str(e)[:80]})", key)
+        if dg is not None:
+            ctx.bump("leaf-traced/" + name)
+            gotd = None
+            with ctx.guard(f"C20:{name}:leaf-tracer-run", key):
+                # parameters of the traced copy are those of a deep copy: load the same values
+                dg.load_state_dict(m.state_dict(), strict=False)
+                gotd = fb(dg)
+            if gotd is not None:
+                if not rounding_close(gotd[0], want[0], ref[0] if ref else None, allow[0] if allow else None, dt, f32i):
+                    ctx.violation(f"C20:{name}:leaf-tracer-forward", "leaf-traced module output differs from eager", key)
+                for j, (a, b) in enumerate(zip(gotd[1], want[1])):
+                    r64 = ref[1][j] if ref and j < len(ref[1]) else None
+                    al = allow[1][j] if allow and j < len(allow[1]) else None
+                    if (a is None) != (b is None) or (a is not None and not rounding_close(a, b, r64, al, dt, f32i)):
+                        ctx.violation(f"C20:{name}:leaf-tracer-grad", "gradient of the leaf-traced module differs from eager "
+                                      "(a backward-only scale factor was lost or changed)", key,
+                                      None if a is None or b is None else float((a.double() - b.double()).abs().max()))
+                        break
 
     for (name, mk, shape, is_idx) in mk_modules():
         for dt in (torch.float32, torch.float64, torch.bfloat16):
